@@ -208,7 +208,9 @@ impl MaxCharsCommandSizeLimiter {
         Self {
             per_arg_overhead: POINTER_SIZE,
             max_arg_size: max_single_arg_size(),
-            ..Self::new(arg_max - ARG_HEADROOM - env_size)
+            // (an environment that leaves less than the headroom leaves no budget at all:
+            // every command is then reported as too large instead of underflowing)
+            ..Self::new(arg_max.saturating_sub(ARG_HEADROOM + env_size))
         }
     }
 }
